@@ -535,6 +535,45 @@ func c19Plain(src string, gp *C19Prog) (res c19Result) {
 	return res
 }
 
+// c19PlainSecond is the reference of a SECOND execution of the compiled program on
+// the same interpreter (what a second debug session must reproduce).
+func c19PlainSecond(src string) (res c19Result) {
+	var out bytes.Buffer
+	sink := host.NewSink(40000, nil)
+	host.Cur.Store(sink)
+	defer host.Cur.Store(nil)
+	it := c19Interp(&out)
+	p, err := it.Compile(src)
+	if err != nil {
+		res.errStr = "compile: " + err.Error()
+		return res
+	}
+	n0, t0 := 0, 0
+	func() {
+		defer func() {
+			if p := recover(); p != nil {
+				res.errStr = fmt.Sprintf("host panic: %v", p)
+			}
+		}()
+		_, _ = it.Execute(p)
+		n0 = out.Len()
+		t0 = len(sink.Events())
+		v, err := it.Execute(p)
+		res.resStr, res.errStr = resString(v), errString(err)
+		res.ok = true
+	}()
+	res.out = out.String()[n0:]
+	for _, e := range sink.Events()[t0:] {
+		if e.Kind == host.KTick {
+			res.ticks = append(res.ticks, e.Tag)
+		}
+	}
+	if sink.Overflow() {
+		res.ok = false
+	}
+	return res
+}
+
 type c19Event struct {
 	reason interp.DebugEventReason
 	line   int
@@ -674,6 +713,17 @@ func RunC19(t *testing.T, tape *Tape) *Outcome {
 		}
 	}
 	policy := tape.Choose(5)      // 0 continue only; 1 step-into only; 2 step-over; 3 step-out mix; 4 random mix
+	// a second debug session of the same program on the same interpreter, started
+	// as soon as Wait has returned (the first session's goroutine may still be
+	// finishing): same breakpoints, continue only
+	twoSessions := prog != nil && len(prog.Tail) == 0 && tape.Choose(4) == 3
+	var ref2 c19Result
+	if twoSessions {
+		ref2 = c19PlainSecond(src)
+		if !ref2.ok {
+			twoSessions = false
+		}
+	}
 	if switchAt > 0 {
 		pname += fmt.Sprintf(" [replace set at break %d: lines %d funcs %v]", switchAt, len(lineBP2), funcBP2)
 	}
@@ -693,8 +743,17 @@ func RunC19(t *testing.T, tape *Tape) *Outcome {
 			if s.File == "debugger.go" && s.Kind == "stmt" && (s.Func == "exec" || s.Func == "Step" || s.Func == "Continue") {
 				cfg.HotSites = append(cfg.HotSites, i)
 			}
+			if twoSessions && s.File == "debugger.go" && s.Kind == "stmt" && s.Func == "Debug.func.func" {
+				// the last thing the goroutine of a session does (detaching the
+				// debugger from the interpreter)
+				cfg.AlwaysSites = append(cfg.AlwaysSites, i)
+			}
 		}
 		cfg.YieldBudget = 40 + tape.Choose(200)
+		if twoSessions {
+			// the goroutine of the first session may be slow to finish
+			cfg.StallMax = [...]int{0, 4, 20, 60}[tape.Choose(4)]
+		}
 	}
 
 	var out bytes.Buffer
@@ -715,6 +774,13 @@ func RunC19(t *testing.T, tape *Tape) *Outcome {
 	var validFuncs2 map[string]int
 	ticksAtSwitch := -1
 	breaksSeen := 0
+	var events2 []c19Event
+	var valid2Lines map[int]bool
+	var valid2Funcs map[int]bool
+	var wait2Res reflect.Value
+	var wait2Err error
+	waited2, started2, overlap2 := false, false, false
+	out2Start, ticks2Start := 0, 0
 
 	res := Simulate(t, tape, cfg, func(r *Run) {
 		sink = r.NewSink(20000, nil)
@@ -812,6 +878,7 @@ func RunC19(t *testing.T, tape *Tape) *Outcome {
 			// installation is wanted, else plain request by policy
 			first := true
 			gid := 0 // the goroutine to resume: the one that reported the last stop
+		session:
 			for {
 				var reason interp.DebugEventReason
 				cont := false
@@ -871,7 +938,7 @@ func RunC19(t *testing.T, tape *Tape) *Outcome {
 						terminateSeenBeforeWait = true
 						waitRes, waitErr = dbg.Wait()
 						waited = true
-						return
+						break session
 					case interp.DebugEnterGoRoutine, interp.DebugExitGoRoutine:
 						// informational
 					default:
@@ -886,6 +953,88 @@ func RunC19(t *testing.T, tape *Tape) *Outcome {
 								install2()
 							}
 						}
+					}
+				}
+			}
+			if !twoSessions {
+				return
+			}
+			// ---- second session ----
+			started2 = true
+			out2Start = out.Len()
+			ticks2Start = len(sink.Events())
+			evch2 := make(chan c19Event, 100000)
+			dbg2 := it.Debug(context.Background(), p, func(e *interp.DebugEvent) {
+				ev := c19Event{reason: e.Reason(), g: -1}
+				if e.Reason() != interp.DebugTerminate {
+					ev.g = e.GoRoutine()
+					if fr := e.Frames(0, 1); len(fr) > 0 {
+						ev.line = fr[0].Position().Line
+					}
+				}
+				mu.Lock()
+				events2 = append(events2, ev)
+				mu.Unlock()
+				evch2 <- ev
+			}, nil)
+			for _, tk := range r.Tasks() {
+				if !tk.Client && !tk.Exited() && tk.Name != "c0" {
+					overlap2 = true // the first session's goroutine has not finished yet
+				}
+			}
+			valid2Lines, valid2Funcs = map[int]bool{}, map[int]bool{}
+			{
+				var reqs []interp.BreakpointRequest
+				for _, l := range lineBP {
+					reqs = append(reqs, interp.LineBreakpoint(l))
+				}
+				for _, f := range funcBP {
+					reqs = append(reqs, interp.FunctionBreakpoint(f))
+				}
+				if len(reqs) > 0 {
+					inSetBP = true
+					bps := dbg2.SetBreakpoints(interp.ProgramBreakpointTarget(p), reqs...)
+					inSetBP = false
+					for i, bp := range bps {
+						if !bp.Valid {
+							continue
+						}
+						if i < len(lineBP) {
+							valid2Lines[lineBP[i]] = true
+						} else {
+							valid2Funcs[bp.Position.Line] = true
+						}
+					}
+				}
+			}
+			gid = 0
+			for {
+				for tries := 0; ; tries++ {
+					requests++
+					err := dbg2.Continue(gid)
+					if err == nil || errors.Is(err, interp.ErrNotLive) {
+						break
+					}
+					if errors.Is(err, interp.ErrRunning) && tries < 10000 {
+						errRunning++
+						HostYield()
+						continue
+					}
+					setupFailed, setupErr = true, "resume request of the second session failed: "+err.Error()
+					return
+				}
+				stop := false
+				for !stop {
+					ev := <-evch2
+					switch ev.reason {
+					case interp.DebugTerminate:
+						wait2Res, wait2Err = dbg2.Wait()
+						waited2 = true
+						return
+					case interp.DebugEnterGoRoutine, interp.DebugExitGoRoutine:
+					default:
+						stop = true
+						gid = ev.g
 					}
 				}
 			}
@@ -947,8 +1096,12 @@ func RunC19(t *testing.T, tape *Tape) *Outcome {
 		return o
 	}
 	// (1) output, result, error
-	if out.String() != ref.out {
-		o.addV("C19", "output", "output-differs prog="+kind+" bp="+bpk, "%s: output under the debugger %q, plain execution %q", o.Desc, clip(out.String()), clip(ref.out))
+	out1, evs1 := out.String(), sink.Events()
+	if started2 {
+		out1, evs1 = out1[:out2Start], evs1[:ticks2Start]
+	}
+	if out1 != ref.out {
+		o.addV("C19", "output", "output-differs prog="+kind+" bp="+bpk, "%s: output under the debugger %q, plain execution %q", o.Desc, clip(out1), clip(ref.out))
 	}
 	if es := errString(waitErr); es != ref.errStr {
 		o.addV("C19", "result", "error-differs prog="+kind+" bp="+bpk, "%s: Wait returned error %s, plain execution %s", o.Desc, es, ref.errStr)
@@ -1005,7 +1158,7 @@ func RunC19(t *testing.T, tape *Tape) *Outcome {
 		// the marker trace of the debugged run itself must equal the reference
 		var ticks []int
 		tailTicks := map[int]int{}
-		for _, e := range sink.Events() {
+		for _, e := range evs1 {
 			if e.Kind == host.KTick {
 				if prog.Tail[e.Tag] {
 					tailTicks[e.Tag]++
@@ -1041,6 +1194,70 @@ func RunC19(t *testing.T, tape *Tape) *Outcome {
 			}
 		}
 		o.FaultFired["breakpoints-hit"] += len(got)
+	}
+	// (4) a second session on the same interpreter behaves like the first
+	if started2 && len(o.Violations) == 0 {
+		o.FaultFired["second-session-on-the-same-interpreter"]++
+		if overlap2 {
+			o.FaultFired["second-session-started-before-the-first-one's-goroutine-ended"]++
+		}
+		if !waited2 {
+			o.addV("C19", "terminate", "no-terminate-event prog="+kind+" session=second", "%s: the second session never delivered a terminate event", o.Desc)
+			return o
+		}
+		if o2 := out.String()[out2Start:]; o2 != ref2.out {
+			o.addV("C19", "output", "output-differs prog="+kind+" bp="+bpk+" session=second", "%s: output of the second session %q, second plain execution %q", o.Desc, clip(o2), clip(ref2.out))
+		}
+		if es := errString(wait2Err); es != ref2.errStr {
+			o.addV("C19", "result", "error-differs prog="+kind+" bp="+bpk+" session=second", "%s: Wait of the second session returned error %s, second plain execution %s", o.Desc, es, ref2.errStr)
+		}
+		if rs := resString(wait2Res); rs != ref2.resStr {
+			o.addV("C19", "result", "result-differs prog="+kind+" bp="+bpk+" session=second", "%s: Wait of the second session returned %s, second plain execution %s", o.Desc, rs, ref2.resStr)
+		}
+		var ticks2, got2, want2 []int
+		for _, e := range sink.Events()[ticks2Start:] {
+			if e.Kind == host.KTick {
+				ticks2 = append(ticks2, e.Tag)
+			}
+		}
+		// SetBreakpoints replaces the breakpoints of the kinds it is given requests
+		// for (line / function, as the two requests of the debug adapter protocol
+		// do) and the flags live in the program: function breakpoints installed by
+		// the first session's replacement set stay when the second session asks
+		// for line breakpoints only.
+		funcs2 := valid2Funcs
+		if len(funcBP) == 0 && ticksAtSwitch >= 0 {
+			funcs2 = map[int]bool{}
+			for _, l := range validFuncs2 {
+				funcs2[l] = true
+			}
+		}
+		for _, l := range ref2.ticks {
+			if valid2Lines[l] || funcs2[l] {
+				want2 = append(want2, l)
+			}
+			if valid2Lines[l] && funcs2[l] {
+				// function entry and first statement are two breakpoints
+				want2 = append(want2, l)
+			}
+		}
+		nterm2 := 0
+		for _, e := range events2 {
+			switch e.reason {
+			case interp.DebugBreak:
+				got2 = append(got2, e.line)
+			case interp.DebugTerminate:
+				nterm2++
+			}
+		}
+		if fmt.Sprint(ticks2) != fmt.Sprint(ref2.ticks) {
+			o.addV("C19", "trace", "marker-trace-differs bp="+bpk+" session=second", "%s: statements executed by the second session %v, by a second plain execution %v", o.Desc, clipInts(ticks2), clipInts(ref2.ticks))
+		} else if fmt.Sprint(got2) != fmt.Sprint(want2) {
+			o.addV("C19", "breakpoints", "breakpoint-report-mismatch bp="+bpk+" "+bpDiff(got2, want2)+" session=second", "%s: break events of the second session at lines %v, executed breakpoint lines %v", o.Desc, clipInts(got2), clipInts(want2))
+		}
+		if nterm2 != 1 || events2[len(events2)-1].reason != interp.DebugTerminate {
+			o.addV("C19", "terminate", "terminate-event-count prog="+kind+" session=second", "%s: %d terminate events in the second session", o.Desc, nterm2)
+		}
 	}
 	return o
 }
